@@ -57,6 +57,9 @@ pub struct Scenario {
     pub script: Option<String>,
     /// the injected run-panics fire at the END of `run`, after the system has written through its guards
     pub panic_late: bool,
+    /// the LAST dispatch is issued from a destructor that runs while the calling thread unwinds from an unrelated
+    /// panic (a scope guard running a final frame); it is an ordinary dispatch
+    pub last_in_unwind: bool,
     /// systems whose first setup call panics (async scripts: the script's first `S` unwinds, the caller goes on)
     pub setup_panics: Vec<usize>,
     /// the first dispatch is a `dispatch_seq`, whatever `mode` says (a history: sequential first, then `mode`)
@@ -72,7 +75,7 @@ pub struct Scenario {
 
 impl Scenario {
     pub fn plain(ops: Vec<Op>, mode: Mode, dispatches: u8) -> Scenario {
-        Scenario { ops, mode, dispatches, user_pool: None, default_threads: None, panics: vec![], rendezvous: None, foreign_pool: None, script: None, panic_late: false, setup_panics: vec![], first_seq: false, panic_typed: false, pool_placement: 0, script_in_pool: false }
+        Scenario { ops, mode, dispatches, user_pool: None, default_threads: None, panics: vec![], rendezvous: None, foreign_pool: None, script: None, panic_late: false, last_in_unwind: false, setup_panics: vec![], first_seq: false, panic_typed: false, pool_placement: 0, script_in_pool: false }
     }
 
     pub fn to_json(&self) -> Value {
@@ -88,6 +91,7 @@ impl Scenario {
             "script": self.script,
             "foreign_pool": self.foreign_pool,
             "panic_late": self.panic_late,
+            "last_in_unwind": self.last_in_unwind,
             "setup_panics": self.setup_panics,
             "first_seq": self.first_seq,
             "panic_typed": self.panic_typed,
@@ -118,6 +122,7 @@ impl Scenario {
             script: v.get("script").and_then(|x| x.as_str()).map(|x| x.to_string()),
             foreign_pool: v.get("foreign_pool").and_then(|x| x.as_u64()).map(|x| x as usize),
             panic_late: v.get("panic_late").and_then(|x| x.as_bool()).unwrap_or(false),
+            last_in_unwind: v.get("last_in_unwind").and_then(|x| x.as_bool()).unwrap_or(false),
             setup_panics: v.get("setup_panics").and_then(|x| x.as_array()).map(|a| a.iter().filter_map(|y| y.as_u64().map(|z| z as usize)).collect()).unwrap_or_default(),
             first_seq: v.get("first_seq").and_then(|x| x.as_bool()).unwrap_or(false),
             panic_typed: v.get("panic_typed").and_then(|x| x.as_bool()).unwrap_or(false),
@@ -367,18 +372,44 @@ pub fn run_scenario(sc: &Scenario, twin: bool) -> ExecOut {
         for i in 1..=sc.dispatches {
             ctx.dispatch_no.store(i as u32, Ordering::Relaxed);
             ctx.log(Ev::DispatchBegin, 0, 0);
-            let r = catch_unwind(AssertUnwindSafe(|| {
-                if twin {
-                    d.dispatch_seq(&world);
-                    if matches!(sc.mode, Mode::Dispatch | Mode::Async) {
-                        d.dispatch_thread_local(&world);
-                    }
-                } else if foreign.is_some() {
-                    unreachable!("foreign-pool scenarios run on the sendable form");
-                } else {
-                    run_dispatch(&mut d, &world, if sc.first_seq && i == 1 { Mode::Seq } else { sc.mode });
+            let r = if sc.last_in_unwind && !twin && i == sc.dispatches {
+                // the dispatch runs inside a destructor while this thread unwinds from an unrelated panic
+                struct Final<'x, 'y> {
+                    d: &'x mut shred::Dispatcher<'static, 'static>,
+                    w: &'y shred::World,
+                    mode: Mode,
+                    done: &'x std::cell::Cell<bool>,
                 }
-            }));
+                impl Drop for Final<'_, '_> {
+                    fn drop(&mut self) {
+                        run_dispatch(self.d, self.w, self.mode);
+                        self.done.set(true);
+                    }
+                }
+                let done = std::cell::Cell::new(false);
+                let _ = catch_unwind(AssertUnwindSafe(|| {
+                    let _g = Final { d: &mut d, w: &world, mode: sc.mode, done: &done };
+                    std::panic::panic_any(String::from("HARNESS unrelated panic"));
+                }));
+                if done.get() {
+                    Ok(())
+                } else {
+                    Err(Box::new(String::from("the dispatch issued while unwinding did not complete")) as Box<dyn std::any::Any + Send>)
+                }
+            } else {
+                catch_unwind(AssertUnwindSafe(|| {
+                    if twin {
+                        d.dispatch_seq(&world);
+                        if matches!(sc.mode, Mode::Dispatch | Mode::Async) {
+                            d.dispatch_thread_local(&world);
+                        }
+                    } else if foreign.is_some() {
+                        unreachable!("foreign-pool scenarios run on the sendable form");
+                    } else {
+                        run_dispatch(&mut d, &world, if sc.first_seq && i == 1 { Mode::Seq } else { sc.mode });
+                    }
+                }))
+            };
             ctx.log(Ev::DispatchEnd, 0, 0);
             out.results.push(r.err().map(|p| payload_str(&*p)));
             let bs = world_borrow_state(&world);
@@ -792,7 +823,9 @@ pub fn analyze(m: &Mon, sc: &Scenario, info: &PlanInfo, out: &ExecOut, twin: Opt
                     // inner sequences run `times` per batch run: only meaningful when the dependency panicked before
                     let first_begin = log.iter().position(|e| e.dispatch == 1 && is_begin(info, e) && e.sys as usize == *id).unwrap();
                     let dep_panic_pos = reached.iter().filter_map(|r| log.iter().position(|e| e.dispatch == 1 && is_begin(info, e) && e.sys as usize == *r)).min().unwrap_or(0);
-                    if first_begin > dep_panic_pos {
+                    // (at the top level every system runs once per dispatch: a dependent that ran at all - before or
+                    // after the panic - ran in a dispatch in which its dependency panicked)
+                    if info.nodes[*id].parent.is_none() || first_begin > dep_panic_pos {
                         vs.push(v("C14", "dependent-ran-after-panic", format!("system {} depends (transitively) on a system that panicked in dispatch 1 but ran in that dispatch", id)));
                     }
                 }
